@@ -19,6 +19,9 @@ import os
 import re
 import sys
 
+sys.path.insert(0, os.path.dirname(os.path.abspath(__file__)))
+from conventions import LINKED  # noqa: E402
+
 REPO = os.environ.get("SCODA_REPO", "/repo")
 VERIF = os.path.dirname(os.path.dirname(os.path.abspath(__file__)))
 GEN = os.path.join(VERIF, "lean", "SCoda", "Gen")
@@ -40,6 +43,11 @@ HAND = {
     "AbsoluteSequence.__init__": ("checked", "pinned body"),
     "RelativeSequence.__init__": ("checked", "pinned body"),
     "MessageType.__lt__": ("checked", "order of the members dumped and pinned by WrapTie.message_type_order"),
+    "RelativeSequence.get_key_signature_guess": ("outside", "key guessing heuristic; no property depends on it"),
+    "RelativeSequence.get_sequence_duration_relation": ("outside", "duration as a float multiple of PPQN; no property depends on it"),
+    "Sequence.get_sequence_duration_relation": ("outside", "wrapper of the above"),
+    "Sequence.plot_pianorolls": ("outside", "plotting"),
+    "Sequence._fill_dictionary_entry": ("outside", "helper of plot_pianorolls"),
     "Message.__repr__": ("outside", "printing"),
     "Message.from_dict": ("outside", "constructor from a dict; no property depends on it"),
     "MidiMessage.__str__": ("outside", "printing"),
@@ -107,6 +115,9 @@ def main():
             kind, note = HAND[q]
         elif cls in HAND:
             kind, note = HAND[cls]
+        elif (q.split(".")[-1].startswith("__") and q.split(".")[-1].endswith("__")) or q.split(".")[-1] == "copy" \
+                or (cls, q.split(".")[-1]) in LINKED:
+            kind, note = "checked", "body fingerprinted against the recorded baseline on every run (tools/conventions.py)"
         elif rel in OUTSIDE_FILES:
             kind, note = "outside", OUTSIDE_FILES[rel]
         else:
